@@ -1090,6 +1090,48 @@ def none_value(P, fn, is_source):
     return None
 
 
+def run_missing_key_eq(P, rep, rule="R-MISSINGKEY"):
+    """value_eq on two objects: the per-entry predicate is false when the other object has no such key (abstractly evaluated
+    like R-MISSINGPROP) — two objects with different key sets are never equal."""
+    OBJ_GET = lambda f: f.get("trait", "").endswith("ObjectView") and f["id"].endswith("::get")  # noqa: E731
+
+    def is_source(P_, fn, t, closures):
+        return OBJ_GET(t["f"])
+    root = P.fn_by_key("liquid_core::model::value::view::value_eq")
+    preds = []
+    todo = [root]
+    seen = set()
+    while todo:
+        f = todo.pop()
+        if f.id in seen:
+            continue
+        seen.add(f.id)
+        for b in f.blocks:
+            for st in b["s"]:
+                if st[0] == "a" and st[2]["k"] == "agg" and st[2].get("ak") == "closure" and st[2]["id"] in P.fns:
+                    c = P.fns[st[2]["id"]]
+                    todo.append(c)
+                    if P.local_ty(c, 0) == "bool" and any(t.get("f") and OBJ_GET(t["f"]) for bi, t in P.calls(c)):
+                        preds.append(c)
+    if not preds:
+        # no closure: the lookup may be inline in value_eq itself
+        if any(t.get("f") and OBJ_GET(t["f"]) for bi, t in P.calls(root)):
+            preds = []
+            rep.ok(rule, "value_eq object entries", P.where(root), "key lookup is inline (not decided by this rule)")
+            return
+        rep.viol(rule, "value_eq object entries", P.where(root), "no per-entry key lookup found in value_eq's object branch")
+        return
+    for k, c in enumerate(preds):
+        v = none_value(P, c, is_source)
+        site = "value_eq entry predicate#%d" % k
+        if v is False:
+            rep.ok(rule, site, P.where(c), "an entry whose key the other object lacks makes the objects unequal")
+        elif v is True:
+            rep.viol(rule, site, P.where(c), "a key missing from the other object counts as a MATCH: objects with different key sets compare equal")
+        else:
+            rep.viol(rule, site + " undecided", P.where(c), "could not evaluate the entry predicate for a missing key (unrecognised Option idiom): not decided")
+
+
 def run_missing_property(P, rep, rule="R-MISSINGPROP"):
     """`compact: "p"` and `where: "p"[, v]`: the predicate that selects objects evaluates to false for an object that has no
     member p (abstractly evaluated: the Option from ObjectView::get is None and flows through map / and_then / unwrap_or(c) /
